@@ -4,7 +4,7 @@ ID=$1; RUNS=${2:-0}
 R=${VERIF_REPO:-/repo}; export VERIF_REPO=$R; cd $R || exit 2
 if [ -n "$(git status --porcelain)" ]; then echo "repo not clean"; exit 2; fi
 cp /verif/evidence/$ID.json /verif/evidence/$ID.json.bak 2>/dev/null
-for d in /tmp/mutants-$ID/m*.diff; do
+for d in ${MUTDIR:-/tmp/mutants}-$ID/m*.diff; do
   n=$(basename $d .diff)
   if ! git apply --check $d 2>/dev/null; then echo "$ID $n: DOES-NOT-APPLY"; continue; fi
   git apply $d
